@@ -9,8 +9,9 @@
 EXTENDS Loaders
 CONSTANTS MaxRecs, MaxEntries, Tier
 
-VARIABLES hist, last, res       \* res: the result [out, conv] of the last operation
-bvars == <<hist, last, res>>
+VARIABLES hist, last, res,      \* res: the result [out, conv] of the last operation
+          sigs                 \* coverage signature of each operation (kinds of clash, sizes)
+bvars == <<hist, last, res, sigs>>
 
 Fold(ch) == <<ch>>
 MCDefaultDelim == <<58>>
@@ -37,8 +38,24 @@ ReverseMaps == Distinct(DictSeqs(RevNames, Names, MaxEntries))
 Terms == {<<"str", u>> : u \in Names} \cup {<<"pdict", u>> : u \in Names} \cup {<<"other">>}
 Contexts == Distinct(DictSeqs(Keys1, Terms, IF Tier = "quick" THEN 2 ELSE MaxEntries))
 
-BInit == hist = <<>> /\ last = <<>> /\ res = [out |-> <<>>, conv |-> EmptyConv(D)]
+\* which kinds of clash a record sequence contains: side (P/U) x canonical-canonical / canonical-synonym / synonym-synonym
+ClashKinds(rs) ==
+  UNION {UNION {
+     (IF rs[i].p = rs[j].p THEN {"P-cc"} ELSE {}) \cup
+     (IF rs[i].p \in rs[j].ps \/ rs[j].p \in rs[i].ps THEN {"P-cs"} ELSE {}) \cup
+     (IF rs[i].ps \cap rs[j].ps # {} THEN {"P-ss"} ELSE {}) \cup
+     (IF rs[i].u = rs[j].u THEN {"U-cc"} ELSE {}) \cup
+     (IF rs[i].u \in rs[j].us \/ rs[j].u \in rs[i].us THEN {"U-cs"} ELSE {}) \cup
+     (IF rs[i].us \cap rs[j].us # {} THEN {"U-ss"} ELSE {}) \cup
+     (IF (rs[i].p \in rs[j].ps /\ rs[i].ps = {}) \/ (rs[j].p \in rs[i].ps /\ rs[j].ps = {}) THEN {"P-cs-bare"} ELSE {}) \cup
+     (IF (rs[i].u \in rs[j].us /\ rs[i].us = {}) \/ (rs[j].u \in rs[i].us /\ rs[j].us = {}) THEN {"U-cs-bare"} ELSE {})
+     : j \in (i + 1)..Len(rs)} : i \in 1..Len(rs)}
+SigOf(op, r) == IF op.k = "new" THEN <<"new", Len(op.recs), ClashKinds(op.recs)>>
+                ELSE IF op.k = "upgrade" THEN <<"upgrade", Len(op.data), Cardinality({op.data[i][2] : i \in 1..Len(op.data)})>>
+                ELSE <<op.loader, IF r.out[1] = "raise" THEN r.out[2] ELSE r.out[1], Len(op.data)>>
+BInit == hist = <<>> /\ last = <<>> /\ res = [out |-> <<>>, conv |-> EmptyConv(D)] /\ sigs = <<>>
 Do(op, r) == /\ hist' = Append(hist, op) /\ last' = (IF r.out[1] = "raise" THEN <<"raise", r.out[2]>> ELSE r.out) /\ res' = r
+             /\ sigs' = Append(sigs, SigOf(op, r))
 \* records are chosen one per step so that the frontier is spread over the workers
 BNext ==
   \/ /\ Len(hist) = 0 /\ \E r \in ValidPool : Do([k |-> "new", recs |-> <<r>>, delim |-> D], Construct(<<r>>, D, TRUE))
